@@ -41,7 +41,9 @@ var c16SourceFaults = map[string][]string{
 	"malformed-directive": {"##!> include inc1 @ ~", "##!> define sep a b", "##!> define na.me x", "##!> include-except", "##!> include-except inc1", "##!> include", "##!> define x", "##!> define",
 		"##!> include  inc1 extra", "##!> cmdline unix windows", "##!> assemble x", "##!> include inc1 -"},
 	// prefix / suffix lines that make the joined expression malformed around well-formed entries
-	"malformed-affix":          {"##!$ )", "##!^ (foo", "##!$ a)", "##!^ (?i", "##!$ \\", "##!^ [a-", "##!^ (", "##!$ ]x[", "##!^ x{2,1}"},
+	"malformed-affix": {"##!$ )", "##!^ (foo", "##!$ a)", "##!^ (?i", "##!$ \\", "##!^ [a-", "##!^ (", "##!$ ]x[", "##!^ x{2,1}"},
+	// a directory sits where the include / exclude file is expected (it can be opened, reading it fails)
+	"include-is-directory":     {"##!> include dirinc", "##!> include-except dirinc exc1", "##!> include-except inc1 dirinc", "##!> include dirinc -- a b"},
 	"missing-include-absolute": {"##!> include /nonexistent/dir/birds", "##!> include-except /nonexistent/a exc1", "##!> include-except inc1 /nonexistent/x", "##!> include /nonexistent/dir/birds.ra", "##!> include /nonexistent/dir/birds -- a b"},
 }
 
@@ -172,6 +174,10 @@ func c16Check(env *core.Env, cc core.Case) core.Verdict {
 		case "bad-argument":
 			arg = core.Pick(rand.New(rand.NewSource(int64(idx))), "93210", "932100-chain256", "932100x", "932100-chain")
 		}
+	}
+	if c.Fault == "include-is-directory" {
+		tree["regex-assembly/include/dirinc.ra/"] = ""
+		tree["regex-assembly/include/dirinc.ra/inner.txt"] = "not an assembly file\n"
 	}
 	if err := tree.Write(root); err != nil {
 		return core.Incon("cannot write tree: %v", err)
